@@ -20,6 +20,7 @@ import (
 //	nbns.decode <b>       decodeNBNSName
 //	ssdp.cc <value>       ProcessSSDP on an ssdp:alive NOTIFY whose CACHE-CONTROL header is <value>
 //	ssdp <payload>        ProcessSSDP on raw bytes (panic / hang observation only; not modelled)
+//	ssdp.disp <payload> … ProcessSSDP on raw bytes against the dispatch model (ssdpdisp.go)
 //	mdns.txt <s1,s2,…>    parseTXT
 func EvalHandlers(c *core.Ctx, line string) *core.Case {
 	f := strings.Fields(line)
@@ -35,6 +36,9 @@ func EvalHandlers(c *core.Ctx, line string) *core.Case {
 				}
 				return "", ""
 			}}
+	}
+	if len(f) >= 2 && f[0] == "ssdp.disp" {
+		return evalSsdpDisp(c, f)
 	}
 	if len(f) != 2 {
 		return nil
